@@ -484,7 +484,7 @@ func (e *exprCtx) expr(v ssa.Value) string {
 	}
 	e.depth++
 	defer func() { e.depth-- }()
-	if e.depth > 14 {
+	if e.depth > 28 {
 		return "…"
 	}
 	useAt := e.at
